@@ -158,6 +158,9 @@ pub fn exec_codec<C: Ciphersuite>(op: &str, a: &A) -> Option<String> {
             Ok(p) => format!("ok v={}", sid(&p)),
             Err(_) => derr(),
         },
+        // ---------------- continue a protocol step from persisted state (`fmt=bin|json`): the state
+        // arguments are the stored bytes, decoded here and handed to the step as the decoded objects
+        ("resume", _) => return resume::<C>(a),
         // ---------------- fixed-size primitives: decode(bytes) -> value, re-encoded
         ("prim", _) => {
             let b = unhx(a.get("b")?)?;
@@ -221,4 +224,115 @@ pub fn exec_codec<C: Ciphersuite>(op: &str, a: &A) -> Option<String> {
 fn p_sc<C: Ciphersuite>(s: &str) -> Option<SigningCommitments<C>> {
     let (a, b) = s.split_once(':')?;
     Some(SigningCommitments::new(NonceCommitment::new(pe::<C>(a)?), NonceCommitment::new(pe::<C>(b)?)))
+}
+
+macro_rules! load {
+    ($a:expr, $key:expr, $json:expr, $t:ty) => {{
+        let bytes = unhx($a.get($key)?)?;
+        let r: Result<$t, ()> = if $json {
+            serde_json::from_slice::<$t>(&bytes).map_err(|_| ())
+        } else {
+            <$t>::deserialize(&bytes).map_err(|_| ())
+        };
+        match r {
+            Ok(v) => v,
+            Err(_) => return Some(derr()),
+        }
+    }};
+}
+
+/// `resume <suite> step=<step> fmt=<bin|json> <state args as stored bytes> <other args as usual>`;
+/// answers exactly like the step itself.
+fn resume<C: Ciphersuite>(a: &A) -> Option<String> {
+    use frost_core::keys::dkg;
+    use frost_core::keys::{refresh, repairable};
+    use std::collections::BTreeMap;
+    let json = a.get("fmt")? == "json";
+    let step = a.get("step")?;
+    let r1 = || -> Option<BTreeMap<Identifier<C>, round1::Package<C>>> {
+        Some(p_recs(p_r1::<C>, a.get("r1")?)?.into_iter().collect())
+    };
+    let r2 = || -> Option<BTreeMap<Identifier<C>, round2::Package<C>>> {
+        Some(
+            p_recs(p_ff::<C>, a.get("r2")?)?
+                .into_iter()
+                .map(|(i, s)| (i, round2::Package::new(SigningShare::new(s))))
+                .collect(),
+        )
+    };
+    Some(match step {
+        "keypkg" => {
+            let s = load!(a, "ss", json, SecretShare<C>);
+            f_out(KeyPackage::<C>::try_from(s), |kp| format!("kp={}", f_kp(&kp)))
+        }
+        "sign" => {
+            let nonces = load!(a, "nonces", json, SigningNonces<C>);
+            let kp = load!(a, "kp", json, KeyPackage<C>);
+            let pkg = if a.get("pkg").is_some() {
+                load!(a, "pkg", json, SigningPackage<C>)
+            } else {
+                SigningPackage::<C>::new(p_comms::<C>(a.get("comms")?)?, &unhx(a.get("msg")?)?)
+            };
+            f_out(frost_core::round2::sign(&pkg, &nonces, &kp), |s| format!("z={}", hx(&s.serialize())))
+        }
+        "aggregate" => {
+            let pkp = load!(a, "pkp", json, PublicKeyPackage<C>);
+            let pkg = load!(a, "pkg", json, SigningPackage<C>);
+            let shares: BTreeMap<_, _> = p_recs(p_ff::<C>, a.get("shares")?)?
+                .into_iter()
+                .filter_map(|(i, z)| {
+                    SignatureShare::<C>::deserialize(<<C::Group as Group>::Field as Field>::serialize(&z).as_ref())
+                        .ok()
+                        .map(|s| (i, s))
+                })
+                .collect();
+            f_out(frost_core::aggregate(&pkg, &shares, &pkp), |s| format!("sig={}", f_sig(&s)))
+        }
+        "dkg2" | "refresh_dkg2" => {
+            let sp = load!(a, "sp", json, round1::SecretPackage<C>);
+            let r1 = r1()?;
+            let r = if step == "dkg2" { dkg::part2(sp, &r1) } else { refresh::refresh_dkg_part2(sp, &r1) };
+            f_out(r, |(sp2, r2)| {
+                format!(
+                    "sp2={} r2={}",
+                    f_sp2(&sp2),
+                    f_ff::<C>(r2.iter().map(|(i, p)| (*i, p.signing_share().to_scalar())))
+                )
+            })
+        }
+        "dkg3" | "refresh_dkg3" => {
+            let sp = load!(a, "sp2", json, round2::SecretPackage<C>);
+            let (r1, r2) = (r1()?, r2()?);
+            let r = if step == "dkg3" {
+                dkg::part3(&sp, &r1, &r2)
+            } else {
+                let pkp = load!(a, "pkp", json, PublicKeyPackage<C>);
+                let kp = load!(a, "kp", json, KeyPackage<C>);
+                refresh::refresh_dkg_shares(&sp, &r1, &r2, pkp, kp)
+            };
+            f_out(r, |(kp, pkp)| format!("kp={} pkp={}", f_kp(&kp), f_pkp(&pkp)))
+        }
+        "refresh_share" => {
+            let s = load!(a, "ss", json, SecretShare<C>);
+            let kp = load!(a, "kp", json, KeyPackage<C>);
+            f_out(refresh::refresh_share(s, &kp), |kp| format!("kp={}", f_kp(&kp)))
+        }
+        "repair1" => {
+            let helpers = p_list(pid::<C>, a.get("helpers")?)?;
+            let kp = load!(a, "kp", json, KeyPackage<C>);
+            let mut rng = crate::tape::TapeRng::new(unhx(a.get("tape")?)?);
+            let p = pid::<C>(a.get("participant")?)?;
+            let r = repairable::repair_share_part1(&helpers, &kp, &mut rng, p);
+            f_out(r, |m| {
+                format!("deltas={} used={}", f_ff::<C>(m.iter().map(|(i, d)| (*i, d.to_scalar()))), rng.pos)
+            })
+        }
+        "repair3" => {
+            let sg: Vec<Sigma<C>> = p_list(ps::<C>, a.get("sigmas")?)?.into_iter().map(Sigma::new).collect();
+            let id = pid::<C>(a.get("id")?)?;
+            let pkp = load!(a, "pkp", json, PublicKeyPackage<C>);
+            f_out(repairable::repair_share_part3(&sg, id, &pkp), |kp| format!("kp={}", f_kp(&kp)))
+        }
+        _ => return None,
+    })
 }
